@@ -199,9 +199,16 @@ ENUMS["tabworld"] = dict(subst=dict(Bundles="B_World1", InitOps="Init_Ins"),
 # self- and mutual recursion with several deliveries pending for two busy systems at once
 ENUMS["treesys"] = dict(subst=dict(Bundles="B_One", InitOps="NoOps"), budget=dict(quick=5, thorough=6),
                         consts=C(NSys=2, OpNames={"run", "sysev"}, MaxOps=1, BodyOps=3, Budget=5, MaxSteps=1))
+# every tree of broadcasts / entity events / manual runs / probes over two listeners (bodies up to two ops, four ops in all)
+ENUMS["treeev"] = dict(subst=dict(Bundles="B_One", InitOps="Init_Listen"), budget=dict(quick=4, thorough=5),
+                       consts=C(NSys=2, NEnt=1, OpNames={"bc", "eev", "run", "probe"}, MaxOps=1, BodyOps=2, Budget=4, MaxSteps=2))
+# every tree over reactive components: mutate / remove / despawn / insert by the driver and by the reactors they trigger, then a frame end
+ENUMS["treecomp"] = dict(subst=dict(Bundles="B_One", InitOps="Init_Comp"), budget=dict(quick=3, thorough=4),
+                         consts=C(NSys=2, NEnt=2, NVal=1, OpNames={"mut", "rm", "desp", "ins"}, MaxOps=2, BodyOps=2, Budget=3, MaxSteps=3, FinalStep="clear"))
 PROP_ENUMS = {
-    "C01": ["tabcomp", "tabev"], "C06": ["tabcomp", "tabev"], "C07": ["tabev", "tabmix", "tabcomp"], "C15": ["tabev", "tabcomp", "tabdesp"], "C11": ["tabdesp"], "C12": ["treesys"], "C02": ["treesys"], "C09": ["treesys"],
-    "C16": ["tabworld"], "C18": ["tabmix"], "C08": ["tabmix", "tabrem", "tabdesp"],
+    "C01": ["tabcomp", "tabev", "treeev"], "C06": ["tabcomp", "tabev"], "C07": ["tabev", "tabmix", "tabcomp"], "C15": ["tabev", "tabcomp", "tabdesp"],
+    "C11": ["tabdesp", "treeev"], "C12": ["treesys"], "C02": ["treesys"], "C09": ["treesys"], "C03": ["treeev"], "C04": ["treeev"], "C05": ["treeev"],
+    "C16": ["tabworld"], "C18": ["tabmix", "treecomp"], "C08": ["tabmix", "tabrem", "tabdesp", "treecomp"], "C14": ["treecomp"], "C13": ["treeev"],
 }
 
 # which groups decide which property; the first group is the property's "home"
